@@ -597,7 +597,8 @@ def _whole_word_of(F, B, op):
 
     # (a private accessor - `fn ptr(&self) -> *mut ArcInner<T> { self.p.as_ptr() }` - is read through; one that masks or offsets
     # the word - `fn addr(&self) -> usize { self.p.as_ptr() as usize & !1 }` - then shows its arithmetic)
-    e = symx.normalize_calls(F, symx.expr(F, B, op), lambda k: not _bal.is_api(F, F.body(k)))
+    # (a public accessor of the crate - `heap_ptr()` - is read through the same way: whatever it does to the word shows)
+    e = symx.normalize_calls(F, symx.expr(F, B, op), lambda k: F.body(k) is not None)
     for _ in range(12):
         if not isinstance(e, tuple) or not e:
             return None
@@ -987,7 +988,7 @@ def rule_lex(ctx, rep):
                 if b is None:
                     continue
                 B = cfg.Body(b)
-                leaves = [(bi, t) for bi, t in B.calls() if t.get("callee_trait") in ("core::cmp::PartialOrd", "core::cmp::Ord") and t.get("callee_name") in ("partial_cmp", "cmp")]
+                leaves = [(bi, t) for bi, t in B.calls() if (t.get("callee_trait") in ("core::cmp::PartialOrd", "core::cmp::Ord") and t.get("callee_name") in ("partial_cmp", "cmp")) or _is_cmp_fn_item_call(F, t)]
                 ik = "%s :: %s::%s" % (st["s"], tr.split("::")[-1], it["name"])
                 # orientation: every key comparison is (something of self) against (the same thing of other), in that order - a
                 # swapped pair answers the reverse of what the other operators answer for the same two values
@@ -1028,20 +1029,32 @@ def rule_lex(ctx, rep):
                             continue
                         if pt["dest"]["l"] not in _roots(B, src["l"], set()):
                             continue
+                        vals = set(v for v, _tg in tt["arms"])
                         for v, tgt in tt["arms"]:
                             if v == 0:
                                 cut.add((sj, tgt))
+                        if 0 not in vals and 1 in vals and (vals & {-1, 255, (1 << 8) - 1}):
+                            cut.add((sj, tt["otherwise"]))  # `Less` and `Greater` have arms of their own: what is left is `Equal`
                     from . import c03
 
                     if not cut or c03.reachable_without(B, cut, set(), bi):
                         ok = False
-                        why = "the comparison of a later key (line %s) runs - and can decide or make the result `None` - although an earlier key (line %s) may already differ: the order is not `earlier key first, later key only on a tie`" % (t["span"]["line"], pt["span"]["line"])
+                        why = "the comparison of a later key (line %s) runs - and can decide or make the result `None` - although an earlier key (line %s) may already differ or be incomparable: the order is not `earlier key first, later key only on a tie`" % (t["span"]["line"], pt["span"]["line"])
                 if ok:
                     rep.ok("R-LEX", ik, cfg=tag)
                 else:
                     rep.bad("R-LEX", ik, why, F.loc(b), tag)
     rep.floor("R-ORIENT", 4, "the same orderings")
     rep.floor("R-LEX", 4, "derived and hand-written orderings of the header-slice types")
+
+
+def _is_cmp_fn_item_call(F, t):
+    """`header(&a, &b)` where `header` is the function item `H::partial_cmp` / `T::cmp` handed to a private helper (a key comparison
+    passed as a parameter): `FnOnce::call_once` on a value of that fn-item type."""
+    if t.get("callee_trait") not in ("core::ops::function::FnOnce", "core::ops::function::FnMut", "core::ops::function::Fn") or not t.get("arg_tys"):
+        return False
+    ts = F.ts(F.strip_refs(t["arg_tys"][0]))
+    return ts.startswith("fn {core::cmp::PartialOrd::partial_cmp") or ts.startswith("fn {core::cmp::Ord::cmp")
 
 
 def _roots(B, l, seen):
